@@ -55,6 +55,7 @@ where
       let (bits, st) := run order a b l s
       .ok ⟨bits, st, w⟩
 
+-- @handler OptiVerif.Prbs.handle
 /-- line protocol: `prbs.gen <order> <len|none> <seed|none>` -/
 def handle : List String → Option String
   | "prbs.gen" :: args =>
